@@ -573,6 +573,16 @@ Definition mixed_config (b : backend) (s : solver) (v : bool) (e : entry) : conf
 Definition mixed_outcome (b : backend) (s : solver) (v : bool) (first_plain : bool) (e : entry) : result :=
   outcome (mixed_config b s v e).
 
+(* ---- the flag `_uses_edge_delay_buffer` over the sequence of delayed projections in the order in which they are processed
+        (node declaration order for edges, list order for Connectivity objects): the code sets it to True in the ring-buffer
+        branch and never resets it (ir/circuit.py:400-412, 604-612); the independently seeded changes C20-m1/m3/m5 ASSIGNED
+        it on every call, so that the last projection decided ---- *)
+Inductive dkind := KPlain | KSpread.
+Definition needs_ring (k : dkind) : bool := match k with KPlain => true | KSpread => false end.
+Definition flag_sticky (ks : list dkind) : bool := existsb needs_ring ks.
+Definition flag_assigned (ks : list dkind) : bool := match rev ks with [] => false | k :: _ => needs_ring k end.
+Definition mixed_kinds (first_plain : bool) : list dkind := if first_plain then [KPlain; KSpread] else [KSpread; KPlain].
+
 (* the same mixture through the PopulationTemplate / Connectivity API (NetworkGraph._add_matrix_delay): one population
    projecting onto itself through a plain-delay matrix connection and a delay+spread one, in either order.  The
    guards alone decide (an adaptive solver uses the ODE cascade, no history); on Fortran the probe model does not
